@@ -518,6 +518,24 @@ fn build_mfields_unnamed(fs: &[MField]) -> scale_info::build::FieldsBuilder<Meta
 fn meta_case(rng: &mut Rng, rep: &mut Report, case_id: u64) {
     let idents = ["a", "B", "_c", "r#type", "mod1", "Foo"];
     let segs: Vec<&'static str> = (0..rng.range(1, 4)).map(|_| *rng.pick(&idents)).collect();
+    // the path is supplied through one of the constructors. (With a replacement table only tables are used whose
+    // replacements are not themselves keys: whether replacements chain is C18's question, not the builders'.)
+    let path_via = if segs.len() < 2 { 0 } else { rng.below(4) };
+    let table: Vec<(&'static str, &'static str)> = if path_via == 3 {
+        let mut t: Vec<(&'static str, &'static str)> = Vec::new();
+        for _ in 0..rng.range(1, 3) {
+            let k = *rng.pick(&idents);
+            let v = *rng.pick(&["X1", "r#fn", "_y"]);
+            if !t.iter().any(|e| e.0 == k) {
+                t.push((k, v));
+            }
+        }
+        t
+    } else {
+        Vec::new()
+    };
+    let pre = segs.clone();
+    let segs: Vec<&'static str> = if path_via == 3 { pre.iter().map(|s| table.iter().find(|e| e.0 == *s).map_or(*s, |e| e.1)).collect() } else { segs };
     let params: Vec<(&'static str, Option<u32>)> = (0..rng.below(4)).map(|_| (*rng.pick(&["T", "U", "Idx", ""]), if rng.flip() { Some(rng.below(META_TYPES) as u32) } else { None })).collect();
     let tdocs: Option<(bool, &'static [&'static str])> = if rng.flip() { Some((rng.flip(), leak_docs(&strs(rng, rng.clone().below(3))))) } else { None };
     let is_variant = rng.flip();
@@ -542,7 +560,11 @@ fn meta_case(rng: &mut Rng, rep: &mut Report, case_id: u64) {
         let tp: Vec<TypeParameter> = params.iter().map(|(n, t)| TypeParameter::new(n, t.map(|k| meta_of(k).0))).collect();
         let b = Type::builder();
         // the parameter list through a Vec or through a lazy iterator without an exact size hint
-        let b = b.path(Path::from_segments(segs.clone()).expect("valid segments"));
+        let b = match path_via {
+            2 => b.path(Path::new(pre[pre.len() - 1], leak(pre[..pre.len() - 1].join("::")))),
+            3 => b.path(Path::new_with_replace(pre[pre.len() - 1], leak(pre[..pre.len() - 1].join("::")), &table)),
+            _ => b.path(Path::from_segments(segs.clone()).expect("valid segments")),
+        };
         let b = if case_id % 3 == 1 { b.type_params(tp.into_iter().filter(|_| true)) } else { b.type_params(tp) };
         let b = match tdocs {
             Some((true, d)) => b.docs_always(d),
